@@ -566,8 +566,8 @@ func (s *qSim) c19CompareWithLive(c *c19State, live, rebuilt map[string]*core.Qu
 			r.Probe("c19-live-has-reserved-pod-gone-or-bound-elsewhere")
 		}
 	}
-	sub := map[string]rl{}    // quota -> requests of reserved-only pods in its subtree
-	subNP := map[string]rl{}  // the non-preemptible ones
+	sub := map[string]rl{}     // quota -> requests of reserved-only pods in its subtree
+	subNP := map[string]rl{}   // the non-preemptible ones
 	subSelf := map[string]rl{} // quota -> requests of its own reserved-only pods
 	for _, pn := range sortedNames(reservedOnly) {
 		mp := reservedOnly[pn]
